@@ -277,7 +277,9 @@ func c14InAck(g c14G) int {
 	return 3
 }
 
-func c14Spawn(kind byte, w *c14Worker) {
+// c14Spawn: false = the package's spawn shim does not fit the worker method any more (its
+// unexported signature changed): the real worker cannot be started one by one.
+func c14Spawn(kind byte, w *c14Worker) bool {
 	if w.in == nil {
 		w.in = make(chan *models.Item)
 	}
@@ -296,6 +298,7 @@ func c14Spawn(kind byte, w *c14Worker) {
 	default:
 		w.cancel, w.done = finisher.VerifC14SpawnWorker(in, out, on)
 	}
+	return w.cancel != nil
 }
 
 // c14Spin busy-waits d: the goroutines of a round are released together and then staggered by
@@ -550,7 +553,17 @@ func c14ExecLocal(in string) (res Result, leak bool) {
 		lterms = append(lterms, fmt.Sprintf("(%d, %d, %d)", l.u, l.d, l.k))
 	}
 	for i, w := range r.ws {
-		c14Spawn(stages[i], w)
+		if !c14Spawn(stages[i], w) {
+			// No observation of the real worker is possible: reported as a difference from the model
+			// (manager paused although nothing was invoked) and not as a failed monitor - the failing
+			// input for such a change comes from the `pausestart` leg, which starts the stages through
+			// their exported Start and does not depend on the workers' signatures.
+			for _, x := range r.ws[:i] {
+				x.cancel()
+			}
+			r.quiesce()
+			return Result{Term: "PC 0 0 [] [([], (Ob [] true [] 0 0 false))]", Tags: []string{"spawn-shim-mismatch:" + string(stages[i])}}, false
+		}
 	}
 	for i := 0; i < nc; i++ {
 		r.cs = append(r.cs, &c14Ctl{})
